@@ -575,6 +575,7 @@ func main() {
 	writeExtracted(*repo, *out)
 	writeUnicode(*out)
 	writeFixtureDumps(*repo, *out)
+	writeGoFuns(*repo, *out)
 }
 
 // writeFixtureDumps: the dumps of the repository's own use-case fixtures as Gallina terms, so that
